@@ -4,6 +4,9 @@
 (b) no pattern-variable clobber in loops that evaluate a path (E6, package-wide)
 (c) closure helpers: every self-recursive call is guarded by a visited set that
     is added to before recursing; every yield of the driver passes a `done` filter
+    ("helpers of X.eval" always means: the private callables the public eval reaches -
+    closures nested in it, private methods called through self, private module
+    functions - vlib/h_c11.Evaluator; where a helper lives is not part of the property)
 (d) the zero-length clause yields for a bound end without consulting the graph
 (e) every end parameter of an evaluator is forwarded (used) - a dropped end
     makes the result unrestricted
@@ -13,11 +16,16 @@
     of translatePath that consumes it
 (n) no element inside a path production refuses preceding white space, unless an
     alternative arm takes it after white space behind the necessary lookaheads
+(o) a Graph class with member graphs does not answer a pattern that may hold a Path
+    by asking every member in turn (the path may need triples of several members)
+(p) an optional element at the end of a path production that begins like a longer
+    token of the object list is guarded by a lookahead for that token in every arm
 """
 from __future__ import annotations
 
 import ast
 
+from vlib import h_c11 as _h
 from vlib import loops, truthy
 from vlib.core import AnalysisError, Repo, Report, norm, own_nodes
 
@@ -32,14 +40,6 @@ def _r(t: ast.AST) -> ast.AST:
     while isinstance(t, ast.Subscript):
         t = t.value
     return t
-
-
-def _nested_funcs(fn: ast.AST) -> dict[str, ast.FunctionDef]:
-    return {
-        n.name: n
-        for n in ast.walk(fn)
-        if isinstance(n, ast.FunctionDef) and n is not fn
-    }
 
 
 def _guarded_by_membership(mod, call: ast.Call, arg: str, seen: str, fn: ast.FunctionDef) -> bool:
@@ -175,73 +175,92 @@ def run(repo: Repo, rep: Report) -> None:
     # ---------------------------------------------- (c) closure helper discipline
     rep.rule(
         "C11.c-closure-guard",
-        "in MulPath.eval every self-recursive traversal helper adds its cursor to a visited set before "
-        "iterating and recurses only on nodes not in that set; every yield of the driver passes a done-set filter",
+        "in the evaluator of MulPath (the public eval and the private callables it reaches: nested closures, private methods called through self, "
+        "private module functions) every self-recursive traversal helper adds its cursor to a visited set before iterating and recurses only on "
+        "nodes not in that set; a helper that keeps its frontier in a work list pushes a further step only for a node not in the set and adds it "
+        "with the push; every value the driver hands out - the zero-length pair and the results of every traversal helper it calls - passes a "
+        "done-set filter",
         floor=4,
     )
-    helpers = _nested_funcs(mp)
+    mev = _h.Evaluator(paths, "MulPath")
+    helpers = mev.helpers
     rec = 0
-    for hname, h in helpers.items():
-        calls = [c for c in ast.walk(h) if isinstance(c, ast.Call) and isinstance(c.func, ast.Name) and c.func.id == hname]
+    expanding: list = []  # the helpers that expand a frontier
+    for h in helpers:
+        hname = h.name
+        calls = [c for c in ast.walk(h.fn) if mev.callee(c) is h]
         if not calls:
             continue
-        params = [a.arg for a in h.args.args]
+        params = h.params
         for c in calls:
             rec += 1
+            if h not in expanding:
+                expanding.append(h)
             # the visited-set parameter: passed through unchanged by name
-            seen = [p for i, p in enumerate(params) if i < len(c.args) and isinstance(c.args[i], ast.Name) and c.args[i].id == p]
+            seen = [p for i, p in enumerate(params) if isinstance(h.arg(c, i), ast.Name) and h.arg(c, i).id == p]
             seen = [p for p in seen if any(
                 isinstance(x, ast.Call) and isinstance(x.func, ast.Attribute) and x.func.attr == "add" and norm(x.func.value) == p
-                for x in ast.walk(h))]
+                for x in ast.walk(h.fn))]
             if not seen:
-                rep.ob("C11.c-closure-guard", paths, "MulPath.eval." + hname, c, False,
+                rep.ob("C11.c-closure-guard", paths, h.label, c, False,
                        "recursive call passes no visited set that the helper adds to", node=c)
                 continue
             sv = seen[0]
             # what does the helper add?  seen.add(<param P>) as a top-level statement before the loop
             added = None
-            for st in h.body:
+            for st in h.fn.body:
                 if isinstance(st, (ast.For, ast.While)):
                     break
                 if isinstance(st, ast.Expr) and isinstance(st.value, ast.Call) and isinstance(st.value.func, ast.Attribute) \
                         and st.value.func.attr == "add" and norm(st.value.func.value) == sv and st.value.args:
                     added = norm(st.value.args[0])
             if added is None or added not in params:
-                rep.ob("C11.c-closure-guard", paths, "MulPath.eval." + hname, c, False,
+                rep.ob("C11.c-closure-guard", paths, h.label, c, False,
                        "helper does not add its cursor parameter to %s before iterating" % sv, node=c)
                 continue
             pos = params.index(added)
-            arg = norm(c.args[pos]) if pos < len(c.args) else None
-            ok = arg is not None and _guarded_by_membership(paths, c, arg, sv, h)
-            rep.ob("C11.c-closure-guard", paths, "MulPath.eval." + hname, c, ok,
+            arg = norm(h.arg(c, pos)) if h.arg(c, pos) is not None else None
+            ok = arg is not None and _guarded_by_membership(paths, c, arg, sv, h.fn)
+            rep.ob("C11.c-closure-guard", paths, h.label, c, ok,
                    ("recursion on %s only when not in %s; %s.add(%s) on entry" % (arg, sv, sv, added)) if ok
                    else "recursive call on %s is not guarded by a membership test in %s: the closure does not terminate on a cycle" % (arg, sv),
                    node=c)
     # the same discipline for helpers that keep their frontier in a work list instead of recursing: a push of a further step
     # evaluation `W.append(eval_path(graph, (.., X, ..)))` happens only when X is not in the visited set, X is added to the set
     # with the push, and the start cursor is added before the loop
-    for hname, h in helpers.items():
-        params = [a.arg for a in h.args.args]
-        seen_ps = [p for p in params if any(isinstance(x, ast.Call) and isinstance(x.func, ast.Attribute) and x.func.attr == "add" and norm(x.func.value) == p for x in ast.walk(h))]
-        if not seen_ps:
+    def _step_pushes(fn_: ast.AST):
+        return [c for c in own_nodes(fn_) if isinstance(c, ast.Call) and isinstance(c.func, ast.Attribute) and c.func.attr in ("append", "extend", "appendleft") and c.args
+                and isinstance(c.args[0], ast.Call) and norm(c.args[0].func) == "eval_path" and any(isinstance(p, (ast.For, ast.While)) for p in paths.parents(c) if p is not fn_)]
+
+    for h in mev.all():
+        params = h.params
+        seen_ps = [p for p in params if any(isinstance(x, ast.Call) and isinstance(x.func, ast.Attribute) and x.func.attr == "add" and norm(x.func.value) == p for x in ast.walk(h.fn))]
+        if not seen_ps or h is mev.entry:
+            # a frontier that is expanded where the rule cannot name the visited set (in the driver itself, in a helper that is not
+            # handed the set) is not judged: an analysis error, never a silent pass
+            if _step_pushes(h.fn):
+                raise AnalysisError("%s pushes further steps on a work list (%s) but %s: cannot tell what keeps the walk from revisiting a node" % (
+                    h.label, norm(_step_pushes(h.fn)[0]), "is the public generator itself" if h is mev.entry else "no parameter of it is a set it adds to"))
             continue
         sv = seen_ps[0]
-        loop_targets = {n.id for l in ast.walk(h) if isinstance(l, ast.For) for n in ast.walk(l.target) if isinstance(n, ast.Name)}
-        for c in ast.walk(h):
+        loop_targets = {n.id for l in ast.walk(h.fn) if isinstance(l, ast.For) for n in ast.walk(l.target) if isinstance(n, ast.Name)}
+        for c in ast.walk(h.fn):
             if not (isinstance(c, ast.Call) and isinstance(c.func, ast.Attribute) and c.func.attr in ("append", "extend", "appendleft") and c.args
                     and isinstance(c.args[0], ast.Call) and norm(c.args[0].func) == "eval_path"):
                 continue
-            inloop = any(isinstance(p, (ast.For, ast.While)) for p in paths.parents(c) if p is not h)
+            inloop = any(isinstance(p, (ast.For, ast.While)) for p in paths.parents(c) if p is not h.fn)
             if not inloop:
                 continue
             step = c.args[0]
             cursors = [n.id for a in step.args for n in ast.walk(a) if isinstance(n, ast.Name) and n.id in loop_targets]
             rec += 1
+            if h not in expanding:
+                expanding.append(h)
             if len(cursors) != 1:
-                rep.ob("C11.c-closure-guard", paths, "MulPath.eval." + hname, c, False, "cannot tell which node the pushed step starts from: %s" % norm(step), node=c)
+                rep.ob("C11.c-closure-guard", paths, h.label, c, False, "cannot tell which node the pushed step starts from: %s" % norm(step), node=c)
                 continue
             cur = cursors[0]
-            guarded = _guarded_by_membership(paths, c, cur, sv, h)
+            guarded = _guarded_by_membership(paths, c, cur, sv, h.fn)
             st = paths.parent.get(id(c))
             while st is not None and not isinstance(paths.parent.get(id(st)), (ast.If, ast.For, ast.While, ast.FunctionDef)):
                 st = paths.parent.get(id(st))
@@ -250,31 +269,35 @@ def run(repo: Repo, rep: Report) -> None:
             marked = any(isinstance(x, ast.Expr) and isinstance(x.value, ast.Call) and isinstance(x.value.func, ast.Attribute) and x.value.func.attr == "add"
                          and norm(x.value.func.value) == sv and x.value.args and norm(x.value.args[0]) == cur for x in blk)
             start_marked = False
-            for x in h.body:
+            for x in h.fn.body:
                 if isinstance(x, (ast.For, ast.While)):
                     break
                 if isinstance(x, ast.Expr) and isinstance(x.value, ast.Call) and isinstance(x.value.func, ast.Attribute) and x.value.func.attr == "add" \
                         and norm(x.value.func.value) == sv and x.value.args and norm(x.value.args[0]) in params:
                     start_marked = True
             ok = guarded and marked and start_marked
-            rep.ob("C11.c-closure-guard", paths, "MulPath.eval." + hname, c, ok,
+            rep.ob("C11.c-closure-guard", paths, h.label, c, ok,
                    "a step from %s is pushed only when %s is not in %s, and %s is added with the push; the start cursor is added on entry" % (cur, cur, sv, cur) if ok else
                    "the push of a further step from %s is %s: the closure %s" % (
                        cur, "not guarded by `%s not in %s`" % (cur, sv) if not guarded else ("not accompanied by %s.add(%s)" % (sv, cur) if not marked else "made without the start cursor in %s" % sv),
                        "does not terminate on a cycle" if not (guarded and marked) else "revisits its start node"), node=c)
     if rec < 2:
         raise AnalysisError("expected >= 2 frontier expansions (recursive calls or work-list pushes) in the helpers of MulPath.eval, found %d" % rec)
-    # driver yields
-    helper_nodes = {id(x) for h in helpers.values() for x in ast.walk(h)}
+    # driver yields: what the public generator hands out itself
+    helper_nodes = {id(x) for h in helpers if h.kind == "nested" for x in ast.walk(h.fn)}
+    driver = [n for n in ast.walk(mp) if id(n) not in helper_nodes]
     zero_if = None
     for st in mp.body:
         if isinstance(st, ast.If) and "self.zero" in norm(st.test):
             zero_if = st
     zero_nodes = {id(x) for x in ast.walk(zero_if)} if zero_if is not None else set()
-    ndrv = 0
-    for y in ast.walk(mp):
-        if isinstance(y, ast.Yield) and id(y) not in helper_nodes:
-            ndrv += 1
+    filtered: dict[int, bool] = {}
+    for y in driver:
+        if isinstance(y, ast.YieldFrom):
+            filtered[id(y)] = False
+            rep.ob("C11.c-closure-guard", paths, "MulPath.eval", y, False,
+                   "`yield from` hands every value on as it comes: none of them passes the done-set filter, a pair can be produced twice", node=y)
+        if isinstance(y, ast.Yield):
             val = norm(y.value) if y.value is not None else ""
             ok = False
             why = "yield is neither inside `if <x> not in <done>:` with <done>.add(<x>) nor preceded by <done>.add(<x>): a pair can be produced twice"
@@ -303,24 +326,72 @@ def run(repo: Repo, rep: Report) -> None:
                                 # the same set must be the one the driver filters on
                                 ok = True
                                 why = "pair recorded in %s before it is yielded" % norm(c.func.value)
+            filtered[id(y)] = ok
             rep.ob("C11.c-closure-guard", paths, "MulPath.eval", y, ok, why, node=y)
-    if ndrv < 6:
-        raise AnalysisError("expected >= 6 yields in MulPath.eval (3 zero-length, 3 driver), found %d" % ndrv)
+    # What is counted is not the yield statements (three identical loops may be one loop over the generator chosen from the bound
+    # ends) but the SOURCES of results: every call of a result-producing helper in the driver must be seen to end in a yield of
+    # the loop variable that iterates over it - directly or through a local name that may hold it - and every helper that
+    # expands a frontier must be reachable from the driver; the zero-length clause must hand out something itself.
+    def _is_generator(h) -> bool:
+        return any(isinstance(x, (ast.Yield, ast.YieldFrom)) for x in h.own())
+
+    def _may_hold(e: ast.AST, call: ast.Call) -> bool:
+        """may the iterable expression e evaluate to the result of `call`?"""
+        return any(v is call or any(x is call for x in ast.walk(v)) for v in _h.possible_values(e, mp, lambda _c: None)) or any(x is call for x in ast.walk(e))
+
+    sources = [(c, k) for c, k in mev.calls(mev.entry) if _is_generator(k)]
+    for c, k in sources:
+        consumers = [l for l in driver if isinstance(l, ast.For) and _may_hold(l.iter, c)]
+        handed = [y for l in consumers for y in ast.walk(l) if isinstance(y, ast.Yield) and id(y) in filtered and y.value is not None
+                  and {x.id for x in ast.walk(y.value) if isinstance(x, ast.Name)} & {x.id for x in ast.walk(l.target) if isinstance(x, ast.Name)}]
+        direct = [y for y in driver if isinstance(y, ast.YieldFrom) and _may_hold(y.value, c)]
+        if not handed and not direct:
+            raise AnalysisError("MulPath.eval: cannot see where the results of %s are handed out (no loop over them that yields its variable)" % norm(c))
+    fed = {id(k.fn) for _c, k in sources}
+    grew = True
+    while grew:  # helpers whose results reach the driver through another helper
+        grew = False
+        for h in helpers:
+            if id(h.fn) in fed:
+                for _c, k in mev.calls(h):
+                    if id(k.fn) not in fed:
+                        fed.add(id(k.fn))
+                        grew = True
+    lost = [h.label for h in expanding if id(h.fn) not in fed]
+    if not sources or lost:
+        raise AnalysisError("MulPath.eval: %s" % ("the driver calls no result-producing helper" if not sources else
+                                                 "the traversal helper(s) %s are not reachable from the driver" % ", ".join(lost)))
+    if zero_if is None or not any(isinstance(y, ast.Yield) and id(y) in zero_nodes for y in driver):
+        raise AnalysisError("MulPath.eval: the zero-length clause (if self.zero ...) hands out nothing itself")
 
     # --------------------------------------------------------- (d) zero-length
     rep.rule(
         "C11.d-zero-length",
         "MulPath.eval's zero-length clause yields (x,x) for a bound end (and (subj,obj) when both bound and equal) "
-        "without consulting the graph, for every path with zero=True on the first call",
+        "without consulting the graph, for every path with zero=True on the first call (the pairs may be written in the clause or be "
+        "what a private helper called there returns; such a helper computes from its arguments alone)",
         floor=3,
     )
     if zero_if is None:
         raise AnalysisError("MulPath.eval: zero-length clause (if self.zero ...) not found")
-    calls_in_zero = [c for c in ast.walk(zero_if) if isinstance(c, ast.Call) and not (isinstance(c.func, ast.Attribute) and c.func.attr == "add" and isinstance(c.func.value, ast.Name))]
+
+    def _bookkeeping(c: ast.Call) -> bool:
+        return isinstance(c.func, ast.Attribute) and c.func.attr == "add" and isinstance(c.func.value, ast.Name)
+
+    calls_in_zero = []
+    for c in ast.walk(zero_if):
+        if isinstance(c, ast.Call) and not _bookkeeping(c):
+            k = mev.callee(c)
+            # a private helper that is handed the ends only and calls nothing itself cannot consult the graph
+            if k is not None and not any(isinstance(x, ast.Name) and x.id == mp.args.args[1].arg for a in list(c.args) + [kw.value for kw in c.keywords] for x in ast.walk(a)) \
+                    and k.kind != "nested" and _h.call_free(k, mev.callee, _bookkeeping) is None:
+                continue
+            calls_in_zero.append(c)
     yields = [y for y in ast.walk(zero_if) if isinstance(y, ast.Yield)]
     ends = [a.arg for a in mp.args.args[2:4]]
     want = {"%s, %s" % (ends[0], ends[0]), "%s, %s" % (ends[1], ends[1]), "%s, %s" % (ends[0], ends[1])}
-    got = {norm(y.value).strip("()") for y in yields if y.value is not None}
+    # the values a yield of the clause can hand out: a name stands for what is assigned to it, a helper call for what it returns
+    got = {norm(v).strip("()") for y in yields if y.value is not None for v in _h.possible_values(y.value, mp, mev.callee)}
     for w in sorted(want):
         rep.ob("C11.d-zero-length", paths, "MulPath.eval", "yield " + w, w in got,
                "zero-length match %s present" % w if w in got else "zero-length clause no longer yields (%s)" % w, node=zero_if)
@@ -336,21 +407,27 @@ def run(repo: Repo, rep: Report) -> None:
     # ------------------------------------------------ (e) ends forwarded / used
     rep.rule(
         "C11.e-ends-forwarded",
-        "every evaluator (eval methods of Path subclasses and their nested helpers) uses each of its end "
-        "parameters (subject/object): forwards it to a call, compares it or yields it",
+        "every evaluator (eval methods of Path subclasses and the private callables they reach) uses each of its end "
+        "parameters: forwards it to a call, compares it or yields it.  The end parameters of eval are the public subject/object; "
+        "those of a helper are the parameters that receive, at some call, an end of the caller or a node reached by a loop over results",
         floor=10,
     )
     endnames = set(confirmed)
+    evaluators = {}
     for c in path_classes:
         cname = c.rsplit(".", 1)[1]
         q = cname + ".eval"
         if not paths.has(q) or cname == "Path":
             continue
-        fn = paths.func(q)
-        fns = [(q, fn)] + [(q + "." + n, f) for n, f in _nested_funcs(fn).items()]
-        for fq, f in fns:
-            params = [a.arg for a in f.args.args if a.arg in endnames]
-            for p in params:
+        ev_ = evaluators[cname] = _h.Evaluator(paths, cname)
+
+        def _results(e: ast.AST, _ev=ev_) -> bool:
+            return any(isinstance(x, ast.Call) and (norm(x.func) == "eval_path" or _ev.callee(x) is not None) for x in ast.walk(e))
+
+        ends_of = ev_.end_params(sorted(endnames), _results)
+        for hlp in ev_.all():
+            f = hlp.fn
+            for p in ends_of.get(id(f), []):
                 # uses in f's own body, or by closure in nested defs (closure use counts only if the nested def has no own param p)
                 used = False
                 for n in ast.walk(f):
@@ -364,7 +441,7 @@ def run(repo: Repo, rep: Report) -> None:
                         if owner is f or (owner is not None and p not in [a.arg for a in owner.args.args]):
                             used = True
                             break
-                rep.ob("C11.e-ends-forwarded", paths, fq, "parameter %s" % p, used,
+                rep.ob("C11.e-ends-forwarded", paths, hlp.label, "parameter %s" % p, used,
                        "end parameter is read" if used else "end parameter %s is never read: the path result is not restricted by it" % p, node=f)
     # InvPath must swap both the pattern and the result
     inv = paths.func("InvPath.eval")
@@ -381,14 +458,22 @@ def run(repo: Repo, rep: Report) -> None:
            "" if ok else "InvPath.eval no longer evaluates (obj, arg, subj) and yields (o, s)", node=inv)
     run_extra(repo, rep)
     # paths keep no evaluation state (shared with C15.f)
-    rep.rule("C11.h-paths-are-stateless", "no Path.eval (or nested helper) assigns an attribute of the path object", floor=5)
+    rep.rule("C11.h-paths-are-stateless", "no Path.eval (nor a private callable it reaches: nested helper, private method, private function) assigns an attribute of the path object", floor=5)
     for c in path_classes:
         cname = c.rsplit(".", 1)[1]
         if not paths.has(cname + ".eval"):
             continue
-        f = paths.func(cname + ".eval")
-        writes = [n for n in own_nodes(f, include_nested=True) if isinstance(n, (ast.Assign, ast.AugAssign, ast.AnnAssign)) and any(
-            isinstance(_r(t), ast.Attribute) and isinstance(_r(t).value, ast.Name) and _r(t).value.id == "self" for t in (n.targets if isinstance(n, ast.Assign) else [n.target]))]
+        ev_ = evaluators.get(cname) or _h.Evaluator(paths, cname)
+        f = ev_.entry.fn
+        writes = []
+        for hlp in ev_.all():
+            if hlp.kind == "nested":
+                continue  # walked with the callable it is nested in
+            recv = hlp.receiver if hlp.kind in ("entry", "method") else None
+            if recv is None:
+                continue
+            writes += [n for n in own_nodes(hlp.fn, include_nested=True) if isinstance(n, (ast.Assign, ast.AugAssign, ast.AnnAssign)) and any(
+                isinstance(_r(t), ast.Attribute) and isinstance(_r(t).value, ast.Name) and _r(t).value.id == recv for t in (n.targets if isinstance(n, ast.Assign) else [n.target]))]
         rep.ob("C11.h-paths-are-stateless", paths, cname + ".eval", "eval() writes no attribute of self", not writes,
                "stateless" if not writes else "eval() memoises on the path object (%s): after the graph changes the stale result is returned" % norm(writes[0])[:70], node=writes[0] if writes else f)
 
@@ -413,33 +498,36 @@ def _may_alias_foreign(e: ast.AST, attr: str) -> bool:
 def run_extra(repo: Repo, rep: Report) -> None:
     paths = repo.mod("rdflib.paths")
     typed = repo.typed
-    mp = paths.func("MulPath.eval")
-    helpers = _nested_funcs(mp)
+    mev = _h.Evaluator(paths, "MulPath")
+    helpers = mev.helpers
+
+    def _pushes_step(h) -> bool:
+        return any(isinstance(c, ast.Call) and isinstance(c.func, ast.Attribute) and c.func.attr in ("append", "extend", "appendleft") and c.args
+                   and isinstance(c.args[0], ast.Call) and norm(c.args[0].func) == "eval_path" and any(isinstance(p, (ast.For, ast.While)) for p in paths.parents(c) if p is not h.fn)
+                   for c in ast.walk(h.fn))
 
     # (c2) the visited set prunes expansion only, never results
     rep.rule(
         "C11.c2-seen-prunes-expansion-only",
-        "in the MulPath traversal helpers the yield of the edge just found is not control-dependent on the "
+        "in the traversal helpers of MulPath's evaluator (the private callables eval reaches that call themselves or push further steps on a work "
+        "list) the yield of the edge just found is not control-dependent on the "
         "visited-set membership test: an edge that closes a cycle is still a result, only its expansion is skipped",
         floor=2,
     )
     from vlib.cfg import CFG
 
-    for hname, h in helpers.items():
-        expands = any(isinstance(c, ast.Call) and isinstance(c.func, ast.Name) and c.func.id == hname for c in ast.walk(h)) or any(
-            isinstance(c, ast.Call) and isinstance(c.func, ast.Attribute) and c.func.attr in ("append", "extend", "appendleft") and c.args
-            and isinstance(c.args[0], ast.Call) and norm(c.args[0].func) == "eval_path" and any(isinstance(p, (ast.For, ast.While)) for p in paths.parents(c) if p is not h)
-            for c in ast.walk(h))
+    for h in helpers:
+        expands = any(mev.callee(c) is h for c in ast.walk(h.fn)) or _pushes_step(h)
         if not expands:
             continue
-        g = CFG(h)
-        loops_ = [n for n in own_nodes(h) if isinstance(n, ast.For) and any(isinstance(y, ast.Yield) for y in ast.walk(n))
-                  and not any(isinstance(c, ast.Call) and isinstance(c.func, ast.Name) and c.func.id == hname for c in ast.walk(n.iter))]
+        g = CFG(h.fn)
+        loops_ = [n for n in own_nodes(h.fn) if isinstance(n, ast.For) and any(isinstance(y, ast.Yield) for y in ast.walk(n))
+                  and not any(mev.callee(c) is h for c in ast.walk(n.iter))]
         if not loops_:
-            raise AnalysisError("MulPath.eval.%s: no traversal loop" % hname)
+            raise AnalysisError("%s: no traversal loop" % h.label)
         loop = loops_[0]
         head = g.by_ast[id(loop)]
-        params = [a.arg for a in h.args.args]
+        params = h.params
         seen_tests = set()
         for nd in g.nodes:
             if nd.kind == "test" and isinstance(nd.ast, ast.If):
@@ -447,7 +535,7 @@ def run_extra(repo: Repo, rep: Report) -> None:
                     if isinstance(c, ast.Compare) and isinstance(c.ops[0], (ast.In, ast.NotIn)) and norm(c.comparators[0]) in params:
                         seen_tests.add(nd.id)
         tgt = {n.id for n in ast.walk(loop.target) if isinstance(n, ast.Name)}
-        for y in own_nodes(h):
+        for y in own_nodes(h.fn):
             # the yield of the edge just found: it names an end of the edge the loop enumerates
             nearest = next((p for p in paths.parents(y) if isinstance(p, (ast.For, ast.While))), None)
             if nearest is not loop:
@@ -455,49 +543,61 @@ def run_extra(repo: Repo, rep: Report) -> None:
             if isinstance(y, ast.Yield) and y.value is not None and isinstance(y.value, ast.Tuple) and any(isinstance(e, ast.Name) and e.id in tgt for e in y.value.elts):
                 yn = g.node_of(y, paths)
                 free = yn in g.reach(head, avoid=seen_tests)
-                rep.ob("C11.c2-seen-prunes-expansion-only", paths, "MulPath.eval." + hname, y, free,
+                rep.ob("C11.c2-seen-prunes-expansion-only", paths, h.label, y, free,
                        "the found edge is yielded on a path that does not consult the visited set" if free else
                        "the found edge is only yielded after the visited-set test: pairs that close a cycle are lost", node=y)
 
     # (k) the closure walk does not recurse once per hop
     rep.rule(
         "C11.k-closure-walk-not-recursive-per-hop",
-        "the traversal helpers of MulPath.eval (p+, p*) do not call themselves for the next node of the walk: one generator frame per hop makes a "
+        "the traversal helpers of MulPath's evaluator (p+, p*) do not call themselves for the next node of the walk: one generator frame per hop makes a "
         "simple chain of about a thousand edges (sys.getrecursionlimit()) raise RecursionError instead of answering - `?x rdf:rest*/rdf:first ?m` "
         "on a 1000-member list. The frontier is kept in an explicit work list",
         floor=2,
     )
-    for hname, h in helpers.items():
-        if not any(isinstance(x, ast.Call) and norm(x.func) == "eval_path" for x in ast.walk(h)):
+    for h in helpers:
+        if not any(isinstance(x, ast.Call) and norm(x.func) == "eval_path" for x in ast.walk(h.fn)):
             continue
-        selfcalls = [c for c in ast.walk(h) if isinstance(c, ast.Call) and isinstance(c.func, ast.Name) and c.func.id == hname]
-        if not selfcalls and not any(isinstance(x, (ast.For, ast.While)) for x in own_nodes(h)):
+        selfcalls = [c for c in ast.walk(h.fn) if mev.callee(c) is h]
+        if not selfcalls and not any(isinstance(x, (ast.For, ast.While)) for x in own_nodes(h.fn)):
             continue
-        rep.ob("C11.k-closure-walk-not-recursive-per-hop", paths, "MulPath.eval." + hname, selfcalls[0] if selfcalls else "no self-call", not selfcalls,
+        rep.ob("C11.k-closure-walk-not-recursive-per-hop", paths, h.label, selfcalls[0] if selfcalls else "no self-call", not selfcalls,
                "iterative walk" if not selfcalls else
-               "%s calls itself for every node it reaches: the depth of the Python stack grows with the length of the path walked, a chain longer than the recursion limit raises RecursionError" % hname,
-               node=selfcalls[0] if selfcalls else h)
+               "%s calls itself for every node it reaches: the depth of the Python stack grows with the length of the path walked, a chain longer than the recursion limit raises RecursionError" % h.name,
+               node=selfcalls[0] if selfcalls else h.fn)
 
     # (f) composition is unfiltered
     rep.rule(
         "C11.f-composition-unfiltered",
-        "the loops that compose sub-path results (SequencePath helpers, AlternativePath.eval, InvPath.eval) pass every "
-        "pair on: their bodies contain no if/continue/break between the sub-path evaluation and the yield",
+        "the code that composes sub-path results (the evaluators of SequencePath, AlternativePath and InvPath: eval and the private callables it "
+        "reaches) passes every pair on: a loop over a sub-path evaluation or over the results of a helper contains no if/continue/break between "
+        "the evaluation and the yield; `yield from <evaluation>` passes everything on by construction",
         floor=6,
     )
-    comp_fns = []
-    sq = paths.func("SequencePath.eval")
-    comp_fns += [("SequencePath.eval." + n, f) for n, f in _nested_funcs(sq).items()]
-    comp_fns += [("AlternativePath.eval", paths.func("AlternativePath.eval")), ("InvPath.eval", paths.func("InvPath.eval"))]
-    for q, f in comp_fns:
-        for loop in [n for n in own_nodes(f) if isinstance(n, ast.For)]:
-            if not any(isinstance(c, ast.Call) and norm(c.func) in ("eval_path", "_eval_seq", "_eval_seq_bw") for c in ast.walk(loop.iter)):
-                continue
-            filt = [s for s in loop.body if not isinstance(s, (ast.For, ast.Expr))]
-            filt += [s for s in loop.body if isinstance(s, ast.Expr) and not isinstance(s.value, (ast.Yield, ast.YieldFrom, ast.Constant))]
-            rep.ob("C11.f-composition-unfiltered", paths, q, "for %s in %s" % (norm(loop.target), norm(loop.iter)), not filt,
-                   "every pair of the sub-path is passed on" if not filt else
-                   "composition loop filters its pairs (%s): the composed relation loses members" % norm(filt[0])[:80], node=loop)
+    for cname in ("SequencePath", "AlternativePath", "InvPath"):
+        cev = _h.Evaluator(paths, cname)
+
+        def _composes(e: ast.AST, _ev=cev) -> bool:
+            return any(isinstance(c, ast.Call) and (norm(c.func) == "eval_path" or _ev.callee(c) is not None) for c in ast.walk(e))
+
+        n_here = 0
+        for hlp in cev.all():
+            q, f = hlp.label, hlp.fn
+            for loop in [n for n in own_nodes(f) if isinstance(n, ast.For)]:
+                if not _composes(loop.iter):
+                    continue
+                filt = [s for s in loop.body if not isinstance(s, (ast.For, ast.Expr))]
+                filt += [s for s in loop.body if isinstance(s, ast.Expr) and not isinstance(s.value, (ast.Yield, ast.YieldFrom, ast.Constant))]
+                n_here += 1
+                rep.ob("C11.f-composition-unfiltered", paths, q, "for %s in %s" % (norm(loop.target), norm(loop.iter)), not filt,
+                       "every pair of the sub-path is passed on" if not filt else
+                       "composition loop filters its pairs (%s): the composed relation loses members" % norm(filt[0])[:80], node=loop)
+            for y in own_nodes(f):
+                if isinstance(y, ast.YieldFrom) and _composes(y.value):
+                    n_here += 1
+                    rep.ob("C11.f-composition-unfiltered", paths, q, y, True, "every pair of the evaluation is handed on as it comes", node=y)
+        if not n_here:
+            raise AnalysisError("%s.eval: no loop over (and no `yield from`) a sub-path evaluation found in the evaluator" % cname)
 
     # (g) operand lists are not shared and then mutated
     rep.rule(
@@ -550,14 +650,17 @@ def run_extra(repo: Repo, rep: Report) -> None:
                        "self.%s may be the operand's own list (%s) and is then mutated in place" % (attr, norm(foreign[0])), node=m)
 
 
+from vlib.core import layer as _layer  # noqa: E402
+
 _run_base = run
 
 
 def run(repo: Repo, rep: Report) -> None:  # noqa: F811
-    _run_base(repo, rep)
+    _layer(rep, _run_base, repo)
     # ------------------------------------------------------------------ (i)
     rep.rule("C11.i-path-grammar-nodes-are-translated",
-             "every Comp node the SPARQL path grammar can produce (parser.py: Comp names containing `Path`) has an arm `p.name == <name>` in algebra.translatePath, so no "
+             "every Comp node the SPARQL path grammar can produce (parser.py: Comp names containing `Path`) has an arm in algebra.translatePath - a comparison `p.name == <name>` in the "
+             "code of translatePath (the function and the module functions it reaches) or a key <name> of a module-level table it looks `p.name` up in -, so no "
              "untranslated parse node is ever handed to a path evaluator (table-listed exceptions: syntax that is not SPARQL 1.1)", floor=5)
     pm = repo.mod("rdflib.plugins.sparql.parser")
     am = repo.mod("rdflib.plugins.sparql.algebra")
@@ -569,7 +672,31 @@ def run(repo: Repo, rep: Report) -> None:  # noqa: F811
     tp = [f for q, f in am.functions() if q == "translatePath"]
     if not tp:
         raise AnalysisError("translatePath vanished")
-    arms = {n.comparators[0].value for f in tp for n in ast.walk(f) if isinstance(n, ast.Compare) and norm(n.left).endswith(".name") and isinstance(n.comparators[0], ast.Constant)}
+    # The code of translatePath: the public function and every function of the module that it calls by name or that an entry of a
+    # table it dispatches through names, transitively (an arm may be a branch of an if-chain or a function of its own).
+    module_funcs = {st.name: st for st in am.tree.body if isinstance(st, ast.FunctionDef)}
+    tables = _h.module_tables(am)
+    tcode: list = list(tp)
+    arms: set = set()
+    k_ = 0
+    while k_ < len(tcode):
+        f = tcode[k_]
+        k_ += 1
+        for n in ast.walk(f):
+            nxt = []
+            if isinstance(n, ast.Call) and isinstance(n.func, ast.Name) and n.func.id in module_funcs:
+                nxt.append(module_funcs[n.func.id])
+            lk = _h.table_lookup(n, tables)
+            if lk is not None and norm(lk[1]).endswith(".name"):
+                # the set of things the table maps: a key is an arm, the function it names is the arm's code
+                for key, val in tables[lk[0]].items():
+                    arms.add(key)
+                    if isinstance(val, ast.Name) and val.id in module_funcs:
+                        nxt.append(module_funcs[val.id])
+            for g_ in nxt:
+                if g_.name != "translatePath" and not any(g_ is x for x in tcode):
+                    tcode.append(g_)
+    arms |= {n.comparators[0].value for f in tcode for n in ast.walk(f) if isinstance(n, ast.Compare) and norm(n.left).endswith(".name") and isinstance(n.comparators[0], ast.Constant)}
     for nm, c in sorted(names.items()):
         if nm in NOT_SPARQL11:
             continue
@@ -579,7 +706,7 @@ def run(repo: Repo, rep: Report) -> None:  # noqa: F811
                "the grammar produces %s nodes but translatePath has no arm for them: the parse node itself ends up as a member of the path object and evaluation raises (`?x !(^:p) ?y` is valid SPARQL)" % nm, node=c)
 
     # the negated-set arm wraps in InvPath exactly the part built from the inverse members (SPARQL 18.2.2.3: !(fwd|^inv) = NPS(fwd) | ^NPS(inv))
-    for f_ in tp:
+    for f_ in tcode:
         inv_names, fwd_names = set(), set()
         for a in own_nodes(f_):
             if isinstance(a, ast.Assign) and isinstance(a.targets[0], ast.Name) and isinstance(a.value, ast.ListComp):
@@ -591,7 +718,7 @@ def run(repo: Repo, rep: Report) -> None:  # noqa: F811
                 used = {n.id for n in ast.walk(c.args[0]) if isinstance(n, ast.Name)}
                 if used & (inv_names | fwd_names):
                     ok = bool(used & inv_names) and not (used & fwd_names)
-                    rep.ob("C11.i-path-grammar-nodes-are-translated", am, "translatePath", c, ok,
+                    rep.ob("C11.i-path-grammar-nodes-are-translated", am, "translatePath" if f_.name == "translatePath" else f_.name, c, ok,
                            "the inverse of the set of ^members" if ok else
                            "InvPath wraps the set built from the FORWARD members (%s): !(:a|^:b) is evaluated as ^!(:a) | !(:b) - the forward IRIs are excluded in the reverse direction and vice versa" % sorted(used & fwd_names), node=c)
 
@@ -667,12 +794,13 @@ def _is_none(e: ast.AST) -> bool:
     return isinstance(e, ast.Constant) and e.value is None
 
 
-def _walk_anchor(h: ast.FunctionDef):
-    """(index of the parameter the helper starts its walk from, side of the step pattern it sits on: 0 start / 2 end), read off the
-    helper's own step evaluations that leave exactly the other end open; None if the helper has no fixed direction"""
-    params = [a.arg for a in h.args.args]
+def _walk_anchor(h):
+    """(index of the parameter the helper (a vlib.h_c11.Helper) starts its walk from - among the parameters a caller supplies -, side of the step
+    pattern it sits on: 0 start / 2 end), read off the helper's own step evaluations that leave exactly the other end open; None if the helper has
+    no fixed direction"""
+    params = h.params
     found = set()
-    for c in own_nodes(h):
+    for c in own_nodes(h.fn):
         pat = _step_pattern(c)
         if pat is None:
             continue
@@ -682,13 +810,6 @@ def _walk_anchor(h: ast.FunctionDef):
         if _is_none(a) and isinstance(b, ast.Name) and b.id in params:
             found.add((params.index(b.id), 2))
     return next(iter(found)) if len(found) == 1 else None
-
-
-def _arg_at(call: ast.Call, callee: ast.FunctionDef, idx: int):
-    if idx < len(call.args):
-        return call.args[idx]
-    name = callee.args.args[idx].arg
-    return next((k.value for k in call.keywords if k.arg == name), None)
 
 
 def _reached(mod, node: ast.AST, h: ast.AST) -> dict:
@@ -866,54 +987,84 @@ _run_base2 = run
 
 
 def run(repo: Repo, rep: Report) -> None:  # noqa: F811
-    _run_base2(repo, rep)
+    _layer(rep, _run_base2, repo)
     paths = repo.mod("rdflib.paths")
     typed = repo.typed
 
     # ------------------------------------------------------------------ (l)
     # A helper of a path evaluator that walks in a fixed direction evaluates its own step from one of its end parameters and leaves
     # the other end of that step open.  Whoever hands it the rest of a walk must put a node it KNOWS on that parameter.
+    # What is counted: not the call sites (two branches of the driver that make the same call may be one) but, for each of the
+    # public evaluators that compose a walk out of steps (SequencePath.eval, MulPath.eval), (1) every directional helper is entered
+    # at least once from the driver, directly or through another helper, and (2) at least one continuation of a walk from a reached
+    # node (a call between helpers or a pushed step) is seen; a directional helper the driver cannot reach, or an evaluator without a
+    # continuation, is a lost anchor.
     rep.rule(
         "C11.l-walk-continues-from-known-node",
-        "in the eval methods of the Path classes, a nested helper whose own step starts from one of its end parameters (eval_path(graph, (P, step, None)) "
+        "in the evaluators of the Path classes (the public eval and the private callables it reaches - nested closures, private methods called through "
+        "self, private module functions), a helper whose own step starts from one of its end parameters (eval_path(graph, (P, step, None)) "
         "or (None, step, P)) receives on that parameter the node just reached by the caller's loop - the far end of the caller's step - or an end "
         "the enclosing `is not None` tests prove bound; a step pushed for a reached node keeps the helper's direction.  Otherwise the callee's first "
         "step runs with BOTH ends unbound and a zero-length match on a term that is not in the graph is lost: "
         "Graph().subjects(p*/q*/r*, X) must yield X",
-        floor=10,
+        floor=4,
     )
     rid = "C11.l-walk-continues-from-known-node"
     path_classes = [c for c in typed.subclasses("rdflib.paths.Path") if c.startswith("rdflib.paths.")]
+    composed = {}
     for c in path_classes:
         cname = c.rsplit(".", 1)[1]
         if cname == "Path" or not paths.has(cname + ".eval"):
             continue
-        ev = paths.func(cname + ".eval")
-        helpers = _nested_funcs(ev)
-        if not helpers:
+        pev = _h.Evaluator(paths, cname)
+        ev = pev.entry.fn
+        if not pev.helpers:
             continue
-        anchors = {n: _walk_anchor(h) for n, h in helpers.items()}
-        ends = [a.arg for a in ev.args.args[2:4]]
-        # (1) calls between helpers that continue a walk, (2) steps pushed for a reached node
-        for hn, h in helpers.items():
-            for n in own_nodes(h):
+        anchors = {id(h.fn): _walk_anchor(h) for h in pev.helpers}
+        ends = list(pev.entry.params[1:3])
+        n_cont = 0
+        # the helpers the driver starts, directly or through another helper
+        entered: set[int] = {id(k.fn) for _c, k in pev.calls(pev.entry)}
+        grew = True
+        while grew:
+            grew = False
+            for h in pev.helpers:
+                if id(h.fn) in entered:
+                    for _c, k in pev.calls(h):
+                        if id(k.fn) not in entered:
+                            entered.add(id(k.fn))
+                            grew = True
+        # (1) calls between helpers that continue a walk, (2) steps pushed for a reached node.  The rule must see EVERY continuation
+        # of a walk in the evaluator, wherever it stands: one it cannot judge (in the driver itself, in a helper without a direction of
+        # its own, a directional helper started from something that is neither a reached node nor an end) is an analysis error, never a
+        # silent pass
+        unjudged: list[str] = []
+        anchors[id(ev)] = None
+        for h in pev.all():
+            hn = h.name
+            for n in own_nodes(h.fn):
                 if not isinstance(n, ast.Call):
                     continue
-                reached = _reached(paths, n, h)
+                k = pev.callee(n)
+                reached = _reached(paths, n, h.fn)
                 if not reached:
+                    if h is not pev.entry and k is not None and anchors[id(k.fn)] is not None:
+                        unjudged.append("%s: %s starts a directional helper outside any loop over results" % (h.label, norm(n)))
                     continue
-                if isinstance(n.func, ast.Name) and n.func.id in helpers and anchors[n.func.id] is not None:
-                    k = helpers[n.func.id]
-                    idx, _side = anchors[n.func.id]
-                    arg = _arg_at(n, k, idx)
-                    pname = k.args.args[idx].arg
-                    facts = _known_ends(paths, n, h)
+                pat_ = _step_pattern(n)
+                if pat_ is not None and anchors[id(h.fn)] is None and any(isinstance(x, ast.Name) and x.id in reached for x in (pat_[0], pat_[2])):
+                    unjudged.append("%s: the step %s continues a walk from a reached node, but %s has no direction of its own (no step from one of its end parameters)" % (h.label, norm(n), hn))
+                if k is not None and anchors[id(k.fn)] is not None:
+                    idx, _side = anchors[id(k.fn)]
+                    arg = k.arg(n, idx)
+                    pname = k.params[idx]
+                    facts = _known_ends(paths, n, h.fn)
                     ok = isinstance(arg, ast.Name) and (arg.id in reached or facts.get(arg.id) is True)
                     why = "%s starts from its parameter %s, which receives %s" % (k.name, pname, norm(arg) if arg is not None else "nothing")
-                    if ok and arg.id in reached and anchors[hn] is not None:
+                    if ok and arg.id in reached and anchors[id(h.fn)] is not None:
                         loop, pos = reached[arg.id]
                         if _step_pattern(loop.iter) is not None and pos is not None:
-                            far = 1 if anchors[hn][1] == 0 else 0
+                            far = 1 if anchors[id(h.fn)][1] == 0 else 0
                             ok = pos == far
                             if not ok:
                                 why = "%s walks from its %s end, but the continuation starts from the NEAR end of the step just evaluated (%s), not from the node reached" % (
@@ -923,30 +1074,48 @@ def run(repo: Repo, rep: Report) -> None:  # noqa: F811
                         why = ("%s starts its walk from its parameter %s, but the node just reached (%s) is passed as the other end and %s receives %s, which may be unbound: "
                                "the first step of the remaining walk is evaluated with both ends open and zero-length matches on terms absent from the graph are lost" % (
                                    k.name, pname, ", ".join(others) or "-", pname, norm(arg) if arg is not None else "nothing"))
-                    rep.ob(rid, paths, "%s.eval.%s" % (cname, hn), n, ok, why, node=n)
+                    n_cont += 1
+                    rep.ob(rid, paths, h.label, n, ok, why, node=n)
                 pat = _step_pattern(n)
-                if pat is not None and anchors[hn] is not None and any(isinstance(x, ast.Name) and x.id in reached for x in (pat[0], pat[2])):
-                    side = anchors[hn][1]
+                if pat is not None and anchors[id(h.fn)] is not None and any(isinstance(x, ast.Name) and x.id in reached for x in (pat[0], pat[2])):
+                    side = anchors[id(h.fn)][1]
                     ok = isinstance(pat[side], ast.Name) and pat[side].id in reached
-                    rep.ob(rid, paths, "%s.eval.%s" % (cname, hn), n, ok,
+                    n_cont += 1
+                    rep.ob(rid, paths, h.label, n, ok,
                            "the step pushed for a reached node starts from it in the helper's own direction" if ok else
                            "%s walks %s, but the step evaluated for the node just reached puts it on the other end: the walk turns round" % (hn, "forwards" if side == 0 else "backwards"), node=n)
         # (3) the driver picks a helper that starts from an end it knows to be bound
         for n in own_nodes(ev):
-            if not (isinstance(n, ast.Call) and isinstance(n.func, ast.Name) and n.func.id in helpers and anchors[n.func.id] is not None):
+            k = pev.callee(n)
+            if k is None or anchors[id(k.fn)] is None:
                 continue
-            k = helpers[n.func.id]
-            idx, _side = anchors[n.func.id]
-            arg = _arg_at(n, k, idx)
+            idx, _side = anchors[id(k.fn)]
+            arg = k.arg(n, idx)
+            if _reached(paths, n, ev):
+                continue  # judged above, as a continuation
             if not (isinstance(arg, ast.Name) and arg.id in ends):
+                unjudged.append("%s: cannot tell which end %s starts %s from" % (pev.entry.label, norm(n), k.name))
                 continue
             facts = _known_ends(paths, n, ev)
             better = [a.id for a in list(n.args) + [kw.value for kw in n.keywords] if isinstance(a, ast.Name) and a.id in ends and a.id != arg.id and facts.get(a.id) is True]
             ok = facts.get(arg.id) is True or not better
-            rep.ob(rid, paths, "%s.eval" % cname, n, ok,
+            rep.ob(rid, paths, pev.entry.label, n, ok,
                    ("%s starts from %s, known bound here" % (k.name, arg.id) if facts.get(arg.id) is True else "no end is known to be bound on this branch") if ok else
                    "on the branch where %s is bound and %s is not known to be, the walk is handed to %s, which starts from %s: its first step is evaluated with both ends unbound" % (
                        better[0], arg.id, k.name, arg.id), node=n)
+        if unjudged:
+            raise AnalysisError("; ".join(unjudged))
+        directional = [h for h in pev.helpers if anchors[id(h.fn)] is not None]
+        if directional:
+            composed[cname] = (n_cont, [h.label for h in directional if id(h.fn) not in entered])
+    for cname in ("SequencePath", "MulPath"):
+        if cname not in composed:
+            raise AnalysisError("%s.eval: no helper that walks from one of its end parameters (eval_path(graph, (P, step, None)) / (None, step, P)) found in the evaluator" % cname)
+    for cname, (n_cont, unentered) in sorted(composed.items()):
+        if unentered:
+            raise AnalysisError("%s.eval: the driver never starts the directional helper(s) %s from one of its ends" % (cname, ", ".join(unentered)))
+        if not n_cont:
+            raise AnalysisError("%s.eval: no continuation of a walk from a reached node (call between helpers / pushed step) found" % cname)
 
     # ------------------------------------------------------------------ (m)
     pm = repo.mod("rdflib.plugins.sparql.parser")
@@ -955,7 +1124,8 @@ def run(repo: Repo, rep: Report) -> None:  # noqa: F811
     rep.rule(
         "C11.m-optional-path-part-tested-for-absence",
         "a result (Param/ParamList) that a path production of parser.py can leave unset - it sits under Optional/ZeroOrMore or in one arm of an alternation only - "
-        "reads as None on the parse node; the arm of algebra.translatePath for that production consults it and every use is either the absence test itself "
+        "reads as None on the parse node; the arm of algebra.translatePath for that production (the body of `if p.name == <name>:` or the function a dispatch table "
+        "names for <name>, followed into the module functions the node is handed to) consults it and every use is either the absence test itself "
         "(`is None`, `is not None`, truthiness) or lies under one.  Otherwise None is wrapped into the path object: `?s !() ?o` raises 'Can only negate ... not: None'",
         floor=2,
     )
@@ -963,12 +1133,9 @@ def run(repo: Repo, rep: Report) -> None:  # noqa: F811
     if not tps:
         raise AnalysisError("translatePath vanished")
     tp = tps[0]
-    pvar = tp.args.args[0].arg
-    arms: dict = {}
-    for n in ast.walk(tp):
-        if isinstance(n, ast.If) and isinstance(n.test, ast.Compare) and len(n.test.ops) == 1 and isinstance(n.test.ops[0], ast.Eq) \
-                and norm(n.test.left) == pvar + ".name" and isinstance(n.test.comparators[0], ast.Constant):
-            arms[n.test.comparators[0].value] = n
+    # the arms of the dispatch on <node>.name: bodies of `if p.name == "X":`, functions named by the entries of a table looked up with
+    # p.name; each extended into the module functions it hands the node to (vlib/h_c11.dispatch_arms)
+    arms = _h.dispatch_arms(am, tp, "name")
 
     def is_absence_test(u: ast.AST) -> bool:
         p = am.parent.get(id(u))
@@ -980,26 +1147,28 @@ def run(repo: Repo, rep: Report) -> None:  # noqa: F811
             return True
         return isinstance(p, ast.BoolOp)
 
-    def tests_absence(test: ast.AST, attr: str) -> bool:
+    def tests_absence(test: ast.AST, attr: str, pvar: str) -> bool:
         return any(isinstance(x, ast.Attribute) and x.attr == attr and norm(x.value) == pvar and is_absence_test(x) for x in ast.walk(test))
 
-    def guarded(u: ast.AST, attr: str, arm: ast.If) -> bool:
+    def guarded(u: ast.AST, attr: str, arm) -> bool:
+        """the use lies under a test for the absence of <node>.attr inside its region of the arm, or the region is only entered from a
+        place of the arm that does"""
         child = u
         for p in am.parents(u):
-            if isinstance(p, (ast.If, ast.IfExp)) and p is not arm and child is not p.test and tests_absence(p.test, attr):
+            if isinstance(p, (ast.If, ast.IfExp)) and p is not arm.root and child is not p.test and tests_absence(p.test, attr, arm.var):
                 return True
-            if isinstance(p, ast.BoolOp) and any(tests_absence(v, attr) for v in p.values[: next(i for i, v in enumerate(p.values) if v is child)]):
+            if isinstance(p, ast.BoolOp) and any(tests_absence(v, attr, arm.var) for v in p.values[: next(i for i, v in enumerate(p.values) if v is child)]):
                 return True
             for field in ("body", "orelse", "finalbody"):
                 blk = getattr(p, field, None)
                 if isinstance(blk, list) and any(child is s for s in blk):
                     i = next(i for i, s in enumerate(blk) if s is child)
-                    if any(isinstance(s, ast.If) and tests_absence(s.test, attr) and s.body and isinstance(s.body[-1], (ast.Return, ast.Raise)) for s in blk[:i]):
+                    if any(isinstance(s, ast.If) and tests_absence(s.test, attr, arm.var) and s.body and isinstance(s.body[-1], (ast.Return, ast.Raise)) for s in blk[:i]):
                         return True
-            if p is arm:
+            if p is arm.root:
                 break
             child = p
-        return False
+        return arm.via is not None and guarded(arm.via[1], attr, arm.via[0])
 
     for c in ast.walk(pm.tree):
         if not (_is_comp(c) and len(c.args) >= 2 and isinstance(c.args[0], ast.Constant) and isinstance(c.args[0].value, str) and "Path" in c.args[0].value):
@@ -1010,16 +1179,17 @@ def run(repo: Repo, rep: Report) -> None:  # noqa: F811
         for pn in sorted(_param_names(c.args[1], env)):
             if not _may_be_absent(c.args[1], pn, env):
                 continue
-            arm = arms[kname]
-            uses = [x for s in arm.body for x in ast.walk(s) if isinstance(x, ast.Attribute) and x.attr == pn and norm(x.value) == pvar and isinstance(x.ctx, ast.Load)]
-            bad = [u for u in uses if not is_absence_test(u) and not guarded(u, pn, arm)]
+            uses = [(x, arm) for arm in arms[kname] if arm.var for s in arm.body for x in ast.walk(s)
+                    if isinstance(x, ast.Attribute) and x.attr == pn and norm(x.value) == arm.var and isinstance(x.ctx, ast.Load)]
+            bad = [u for u, arm in uses if not is_absence_test(u) and not guarded(u, pn, arm)]
             ok = bool(uses) and not bad
+            pv = uses[0][1].var if uses else (arms[kname][0].var or "p")
             rep.ob("C11.m-optional-path-part-tested-for-absence", am, "translatePath", "%s: optional result %r" % (kname, pn), ok,
-                   "every use of %s.%s lies under a test for its absence" % (pvar, pn) if ok else
-                   ("the %s production can leave %r unset, but the arm for it never consults %s.%s: the optional part is ignored" % (kname, pn, pvar, pn) if not uses else
+                   "every use of %s.%s lies under a test for its absence" % (pv, pn) if ok else
+                   ("the %s production can leave %r unset, but the arm for it never consults %s.%s: the optional part is ignored" % (kname, pn, pv, pn) if not uses else
                     "the %s production can leave %r unset (the parse node then reads None), but %s is used without a test for absence: None ends up as a member of the path "
                     "(for the empty negated set !() : 'Can only negate URIRefs, InvPaths or AlternativePaths, not: None')" % (kname, pn, norm(am.parent.get(id(bad[0]), bad[0]))[:80])),
-                   node=bad[0] if bad else arm)
+                   node=bad[0] if bad else arms[kname][0].root)
 
     # ------------------------------------------------------------------ (n)
     rep.rule(
@@ -1091,3 +1261,143 @@ def run(repo: Repo, rep: Report) -> None:  # noqa: F811
                                "lookaheads exclude the following tokens that start with %s" % sorted(clash) if not missing else
                                "after white space %s also matches the first character of the NEXT term (%s starts both this element and a token of the object list) and no "
                                "lookahead excludes that token: the start of the object is swallowed as a path modifier (`?s <p> ?o`, `?s <p> +1`)" % (norm(_lw_base(a)), missing), node=b)
+
+
+# ---------------------------------------------------------------------------
+# layer 4 (F212, F292): an aggregate answers a path pattern over the union of its members; a modifier yields to a longer token
+
+from vlib import h_c11 as _h  # noqa: E402
+
+_run_base3 = run
+
+
+def run(repo: Repo, rep: Report) -> None:  # noqa: F811
+    _layer(rep, _run_base3, repo)
+    typed = repo.typed
+
+    # ------------------------------------------------------------------ (o)
+    # A path over an aggregate may use triples of several members; asking the members one by one and combining the answers
+    # gives the union of the per-member relations, which is smaller.
+    rid = "C11.o-aggregate-evaluates-path-over-union"
+    rep.rule(
+        rid,
+        "in a Graph class that iterates over its member graphs (a for-loop / comprehension over something of `self` whose variable is statically a Graph), "
+        "a pattern whose static type admits a Path predicate is not evaluated member by member (`pattern in member`, `member.triples(pattern)`, ...) to give an "
+        "answer about the aggregate: the evaluation stands where the type of the pattern excludes a Path (the non-Path branch of triples()), or the loop is "
+        "restricted to selected members (a condition that cannot hold for every member, e.g. member.identifier == context.identifier, with no "
+        "`context is None or ...` way round it), or every value handed out names the member it was found in (quads).  Such a pattern goes through the "
+        "object's own triples(), which evaluates the path over the union.  Otherwise `(a, p/q, c) in ReadOnlyGraphAggregate([g1, g2])` with a-p->b in g1 and "
+        "b-q->c in g2 is False although triples((a, p/q, c)) yields it",
+        floor=5,
+    )
+    path_classes_all = set(typed.subclasses("rdflib.paths.Path"))
+    graph_classes = set(typed.subclasses("rdflib.graph.Graph"))
+    if "rdflib.graph.ReadOnlyGraphAggregate" not in graph_classes:
+        raise AnalysisError("rdflib.graph.ReadOnlyGraphAggregate is no longer a Graph class")
+
+    def admits_path(m, e: ast.AST):
+        """True / False / None (unknown): may the value hold a Path (itself or as a component of a tuple)?"""
+        if isinstance(e, ast.Starred):
+            e = e.value
+        if isinstance(e, ast.Constant):
+            return False
+        if isinstance(e, (ast.Tuple, ast.List)):
+            vs = [admits_path(m, x) for x in e.elts]
+            return True if any(v is True for v in vs) else None if any(v is None for v in vs) else False
+        tf = typed.type_of(m.name, e)
+        if tf is None:
+            return None
+        if tf.any:
+            return True
+        return any(c in tf.text for c in path_classes_all)
+
+    def pattern_like(m, e: ast.AST) -> bool:
+        if isinstance(e, ast.Tuple):
+            return True
+        tf = typed.type_of(m.name, e)
+        return tf is not None and "builtins.tuple" in tf.items and "rdflib.term." in tf.text  # a tuple of terms
+
+    nsites = 0
+    for full in sorted(graph_classes):
+        mname, _, cname = full.rpartition(".")
+        if mname not in repo.modules:
+            continue
+        m = repo.mod(mname)
+        if not m.has(cname):
+            continue
+
+        def is_graph(n: ast.AST, _m=m) -> bool:
+            tf = typed.type_of(_m.name, n)
+            return tf is not None and bool(tf.items) and all(i in graph_classes for i in tf.items)
+
+        def never_none(n: ast.AST, _m=m) -> bool:
+            tf = typed.type_of(_m.name, n)
+            return tf is not None and not tf.optional and not tf.any and bool(tf.items) and "<PartialType>" not in tf.items and "None" not in tf.text.split(" | ")
+
+        for meth, fn in m.methods(cname).items():
+            for loop in _h.member_loops(m, fn, is_graph):
+                for site, args in _h.member_evaluations(loop):
+                    pats = [a for a in args if pattern_like(m, a)]
+                    if not pats:
+                        continue
+                    nsites += 1
+                    adm = [admits_path(m, a) for a in pats]
+                    where = "%s.%s" % (cname, meth)
+                    if all(a is False for a in adm):
+                        rep.ob(rid, m, where, site, True, "the static type of the pattern excludes a Path here (non-Path branch)", node=site)
+                        continue
+                    conds = [(t, True, loop.cond_vars) for t in loop.conds]
+                    conds += [(t, pos, {loop.var}) for t, pos in _h.conditions_between(m, site, loop.node if isinstance(loop.node, ast.For) else m.parent.get(id(loop.node)))]
+                    selecting = [t for t, pos, mv in conds if _h.holds_for_all_members(t, pos, mv, never_none) is False]
+                    named = _h.results_name_member(loop)
+                    ok = bool(selecting) or named is True
+                    rep.ob(rid, m, where, site, ok,
+                           ("only selected members are asked (%s)" % norm(selecting[0]) if selecting else "every value handed out names the member it was found in") if ok else
+                           "a pattern that may hold a Path is evaluated on each member in turn (no condition on the way singles members out: %s) and the answers are "
+                           "combined: a path that needs triples of several members is not found although triples() finds it" % (
+                               "; ".join(norm(t) for t, _p, _v in conds) or "none"), node=site)
+    if nsites < 5:
+        raise AnalysisError("expected >= 5 per-member pattern evaluations in the Graph classes (ReadOnlyGraphAggregate.triples/__contains__/quads/triples_choices), found %d" % nsites)
+
+    # ------------------------------------------------------------------ (p)
+    # SPARQL is tokenised by longest match: where an optional element at the end of a path may begin like a longer token of what
+    # follows the path (the object list), that token wins - with or without white space in front.
+    rid = "C11.p-path-modifier-yields-to-longer-token"
+    pm = repo.mod("rdflib.plugins.sparql.parser")
+    env = _grammar_env(pm)
+    rep.rule(
+        rid,
+        "every element that an optional part at the END of a path production of parser.py (Path*) can start with, and that begins with a character a token of "
+        "the following object list (ObjectListPath) also begins with, is guarded AT ITS OWN POSITION by negative lookaheads (~T) for those tokens - in every "
+        "arm of a choice, the one that refuses white space included.  SPARQL tokens are the longest match: in `?s :p?o` and `<urn:p>?1` the `?o` / `?1` is a "
+        "variable (triple pattern with predicate :p), not the zero-or-one modifier followed by `o` / 1; unguarded, these are a syntax error or silently read "
+        "as `:p? 1`",
+        floor=2,
+    )
+    if "ObjectListPath" not in env:
+        raise AnalysisError("parser.py: ObjectListPath (what follows a path in a triple pattern) not found")
+    follow = _lead(env["ObjectListPath"], env)
+    if "?" not in follow:
+        raise AnalysisError("parser.py: cannot see that an object may start with '?' (leading literals of ObjectListPath: %s)" % sorted(follow))
+    nel = 0
+    for pname_, expr in sorted((k, v) for k, v in env.items() if k.startswith("Path")):
+        for opt in _h.trailing_optionals(pm, expr):
+            for x in (y for a in opt.args[:1] for y in _h.first_elements(a)):
+                clash = sorted(_lead(x, env) & follow)
+                if not clash:
+                    continue
+                looks = _h.guards_at(pm, x, expr)
+                excluded = set().union(*[_lead(l, env) for l in looks]) if looks else set()
+                for ch in clash:
+                    nel += 1
+                    ok = ch in excluded
+                    rep.ob(rid, pm, "<path grammar> " + pname_, "%r at the start of %s" % (ch, norm(x)), ok,
+                           "a lookahead at this position excludes the object tokens that start with %r (%s)" % (ch, ", ".join("~" + norm(l) for l in looks if ch in _lead(l, env))) if ok else
+                           "%s may take %r although it is the first character of a longer token of the object list, and no negative lookahead at this position excludes "
+                           "that token (lookaheads here: %s): the start of the object is swallowed as a path modifier (%s)" % (
+                               norm(x), ch, ", ".join("~" + norm(l) for l in looks) or "none",
+                               {"?": "`?s :p?o` is a syntax error, `<urn:p>?1` is read as `<urn:p>? 1`",
+                                "+": "`?s <urn:p>+1` is read as the closure `<urn:p>+` with object 1, not as predicate <urn:p> with object +1"}.get(
+                                   ch, "`<urn:p>%sx`, where `%sx` is one token" % (ch, ch))), node=x)
+    if nel < 2:
+        raise AnalysisError("expected the optional modifier at the end of PathElt to clash with the object list on '?' (and '+'), found %d clashing element(s)" % nel)
